@@ -4,13 +4,17 @@ package main
 // scheduler and ONE timeout store (the bundled in-memory adapters, real goroutines), driven to completion. Everything the
 // engine names — roles, receiver names, topics, timers, outbox listings — must keep the two apart: every run of either
 // workflow completes, and every hooked run-state entry has its hook run to success, exactly as for one workflow alone.
-//   case: twowf <runs per workflow> <step failures> <hook failures> <pause 0|1> <timeout 0|1>
-//   observation: "<name>:<completed>/<runs>:<runs whose OnPause hook succeeded>:<runs whose OnComplete hook succeeded>" per workflow
+//   case: twowf <runs per workflow> <step failures> <hook failures> <pause 0|1> <timeout 0|1> [<del>]
+//         del = 0: no deletion; k >= 1: once a run has completed its deletion is requested, the custom delete function fails its
+//         first k-1 calls per run
+//   observation: "<name>:<completed>/<runs>:<runs whose OnPause hook succeeded>:<runs whose OnComplete hook succeeded>" per workflow,
+//         followed by ":<runs that ended DataDeleted, scrubbed by the custom function>" when del >= 1
 // The engine model (one workflow at a time) says what each workflow does alone; this family is the search for an input on
 // which sharing the adapters changes that.
 
 import (
 	"context"
+	"encoding/json"
 	"errors"
 	"fmt"
 	"sync"
@@ -31,13 +35,14 @@ type twoCounts struct {
 	pauseOK  map[string]bool
 	doneOK   map[string]bool
 	timedOut map[string]bool
+	delTry   map[int]int // by object seed (= index of the run within its workflow)
 }
 
 func newTwoCounts() *twoCounts {
-	return &twoCounts{stepTry: map[string]int{}, paused: map[string]bool{}, hookTry: map[string]int{}, pauseOK: map[string]bool{}, doneOK: map[string]bool{}, timedOut: map[string]bool{}}
+	return &twoCounts{stepTry: map[string]int{}, paused: map[string]bool{}, hookTry: map[string]int{}, pauseOK: map[string]bool{}, doneOK: map[string]bool{}, timedOut: map[string]bool{}, delTry: map[int]int{}}
 }
 
-func buildTwo(name string, c *twoCounts, stepFail, hookFail int, pause, timeout bool,
+func buildTwo(name string, c *twoCounts, stepFail, hookFail int, pause, timeout bool, del int,
 	stream workflow.EventStreamer, store workflow.RecordStore, roles workflow.RoleScheduler, ts workflow.TimeoutStore) *workflow.Workflow[Obj, st] {
 	b := workflow.NewBuilder[Obj, st](name)
 	b.AddStep(st(1), func(ctx context.Context, r *workflow.Run[Obj, st]) (st, error) {
@@ -86,8 +91,22 @@ func buildTwo(name string, c *twoCounts, stepFail, hookFail int, pause, timeout 
 	}
 	b.OnPause(hook("p", c.pauseOK))
 	b.OnComplete(hook("c", c.doneOK))
-	return b.Build(stream, store, roles, workflow.WithTimeoutStore(ts), workflow.WithLogger(nullLogger{}),
-		workflow.WithDefaultOptions(workflow.PollingFrequency(time.Millisecond), workflow.ErrBackOff(time.Millisecond)))
+	opts := []workflow.BuildOption{workflow.WithTimeoutStore(ts), workflow.WithLogger(nullLogger{}),
+		workflow.WithDefaultOptions(workflow.PollingFrequency(time.Millisecond), workflow.ErrBackOff(time.Millisecond))}
+	if del >= 1 {
+		opts = append(opts, workflow.WithCustomDelete(func(o *Obj) error {
+			c.mu.Lock()
+			c.delTry[o.Seed]++
+			n := c.delTry[o.Seed]
+			c.mu.Unlock()
+			if n < del {
+				return errors.New("delete failure")
+			}
+			o.Trail = []int{-1} // the scrub of this harness
+			return nil
+		}))
+	}
+	return b.Build(stream, store, roles, opts...)
 }
 
 func runTwoWF(kind string, a []string) string {
@@ -100,6 +119,10 @@ func runTwoWF(kind string, a []string) string {
 
 func runTwoWFOnce(a []string, bound time.Duration) (string, bool) {
 	runs, stepFail, hookFail, pause, timeout := atoi(a[0]), atoi(a[1]), atoi(a[2]), a[3] == "1", a[4] == "1"
+	del := 0
+	if len(a) > 5 {
+		del = atoi(a[5])
+	}
 	ctx, cancel := context.WithCancel(context.Background())
 	defer cancel()
 	stream, store, roles, ts := memstreamer.New(), memrecordstore.New(), memrolescheduler.New(), memtimeoutstore.New()
@@ -108,7 +131,7 @@ func runTwoWFOnce(a []string, bound time.Duration) (string, bool) {
 	var cs []*twoCounts
 	for _, n := range names {
 		c := newTwoCounts()
-		w := buildTwo(n, c, stepFail, hookFail, pause && !timeout, timeout, stream, store, roles, ts)
+		w := buildTwo(n, c, stepFail, hookFail, pause && !timeout, timeout, del, stream, store, roles, ts)
 		w.Run(ctx)
 		ws = append(ws, w)
 		cs = append(cs, c)
@@ -122,7 +145,7 @@ func runTwoWFOnce(a []string, bound time.Duration) (string, bool) {
 	runIDs := make([][]string, len(ws))
 	for i, w := range ws {
 		for j := 0; j < runs; j++ {
-			id, err := w.Trigger(ctx, fmt.Sprintf("f%d", j+1))
+			id, err := w.Trigger(ctx, fmt.Sprintf("f%d", j+1), workflow.WithInitialValue[Obj, st](newObj(j+1)))
 			must(err)
 			runIDs[i] = append(runIDs[i], id)
 		}
@@ -145,6 +168,18 @@ func runTwoWFOnce(a []string, bound time.Duration) (string, bool) {
 					if ok {
 						_ = workflow.NewRunStateController(store.Store, rec).Resume(ctx)
 					}
+				case del >= 1 && rec.RunState == workflow.RunStateCompleted:
+					all = false
+					// ask for the deletion once the completion hook has run to success
+					cs[i].mu.Lock()
+					ok := cs[i].doneOK[id]
+					cs[i].mu.Unlock()
+					if ok {
+						_ = workflow.NewRunStateController(store.Store, rec).DeleteData(ctx, "harness")
+					}
+				case del >= 1 && rec.RunState == workflow.RunStateRequestedDataDeleted:
+					all = false
+				case del >= 1 && rec.RunState == workflow.RunStateDataDeleted:
 				case rec.RunState != workflow.RunStateCompleted:
 					all = false
 				default:
@@ -167,12 +202,18 @@ func runTwoWFOnce(a []string, bound time.Duration) (string, bool) {
 	}
 	var out []string
 	for i, n := range names {
-		completed, pok, cok := 0, 0, 0
+		completed, pok, cok, dok := 0, 0, 0, 0
 		for _, id := range runIDs[i] {
 			rec, err := store.Lookup(ctx, id)
 			must(err)
-			if rec.RunState == workflow.RunStateCompleted && rec.Status == 3 {
+			if (rec.RunState == workflow.RunStateCompleted || del >= 1 && (rec.RunState == workflow.RunStateRequestedDataDeleted || rec.RunState == workflow.RunStateDataDeleted)) && rec.Status == 3 {
 				completed++
+			}
+			if rec.RunState == workflow.RunStateDataDeleted {
+				var o Obj
+				if json.Unmarshal(rec.Object, &o) == nil && len(o.Trail) == 1 && o.Trail[0] == -1 {
+					dok++
+				}
 			}
 			cs[i].mu.Lock()
 			if cs[i].pauseOK[id] {
@@ -183,7 +224,11 @@ func runTwoWFOnce(a []string, bound time.Duration) (string, bool) {
 			}
 			cs[i].mu.Unlock()
 		}
-		out = append(out, fmt.Sprintf("%s:%d/%d:%d:%d", n, completed, runs, pok, cok))
+		line := fmt.Sprintf("%s:%d/%d:%d:%d", n, completed, runs, pok, cok)
+		if del >= 1 {
+			line += fmt.Sprintf(":%d", dok)
+		}
+		out = append(out, line)
 	}
 	return fmt.Sprint(out[0], " ", out[1]), timedOut
 }
@@ -196,9 +241,16 @@ func genTwoWF(p *params, emit func(string, bool)) {
 	for i := 0; i < p.pick(5, 60); i++ {
 		emit(fmt.Sprintf("twowf %d %d %d %d %d", 1+p.rng.Intn(4), p.rng.Intn(3), p.rng.Intn(3), p.rng.Intn(2), p.rng.Intn(2)), true)
 	}
+	// with deletion of every completed run (custom delete function, failing its first k-1 calls)
+	for _, c := range []string{"1 0 0 0 0 1", "2 0 0 0 0 2", "2 1 1 1 0 2", "3 0 1 0 1 3"} {
+		emit("twowf "+c, true)
+	}
+	for i := 0; i < p.pick(3, 40); i++ {
+		emit(fmt.Sprintf("twowf %d %d %d %d %d %d", 1+p.rng.Intn(3), p.rng.Intn(2), p.rng.Intn(2), p.rng.Intn(2), p.rng.Intn(2), 1+p.rng.Intn(3)), true)
+	}
 }
 
 func init() {
 	families["twowf"] = &family{gen: genTwoWF, run: runTwoWF, workers: 4,
-		rule: "twowf: two workflows of different names and the same shape (failing step, step or timeout, pause + resume, OnPause / OnComplete hooks failing their first k calls) on ONE in-memory streamer, record store, role scheduler and timeout store with real goroutines; 1..4 runs each; every run must complete and every hook run to success, as for one workflow alone"}
+		rule: "twowf: two workflows of different names and the same shape (failing step, step or timeout, pause + resume, OnPause / OnComplete hooks failing their first k calls, optional deletion of every completed run through a custom delete function failing its first calls) on ONE in-memory streamer, record store, role scheduler and timeout store with real goroutines; 1..4 runs each; every run must complete and every hook run to success, as for one workflow alone"}
 }
